@@ -235,6 +235,14 @@ impl<H: Hasher> BatchMerkleProof<H> {
                 i += 1;
             }
         }
+
+        // make sure every node of the proof was used in the computation of the root
+        for (pointer, nodes) in proof_pointers.iter().zip(self.nodes.iter()) {
+            if *pointer != nodes.len() {
+                return Err(MerkleTreeError::InvalidProof);
+            }
+        }
+
         v.remove(&1).ok_or(MerkleTreeError::InvalidProof)
     }
 
